@@ -686,3 +686,92 @@ def c10(tier, seed):
     c.conform(binary, scns, "chunks", sub="views")
     c.assumptions.append("the const-evaluator half of the quantifier is covered by C18's generated const items")
     return c.finish()
+
+
+# ---------------------------------------------------------------------------------------------
+# C09 sequence operations, C11 flatten / unflatten
+# ---------------------------------------------------------------------------------------------
+def seq_scripts(d, prop):
+    op, n, arg, m = d["op"], d["n"], d["arg"], d["m"]
+    steps = [_mk("arr", n)]
+    if op in ("append", "prepend"):
+        steps += [{"op": "mk_elem"}, {"op": op, "recv": [1], "pick": 0}]
+    elif op == "concat":
+        steps += [_mk("arr", m), {"op": op, "recv": [1, 2]}]
+    elif op in ("pop_back", "pop_front"):
+        steps += [{"op": op, "recv": [1]}]
+    else:
+        steps += [{"op": op, "recv": [1], "arg": arg}]
+    return {"case": op, "prop": prop, "ety": "tk", "steps": steps, "d": dict(d)}
+
+
+@check("C09")
+def c09(tier, seed):
+    c = Check("C09", tier, seed)
+    binary = vlib.build_harness()
+    r = c.mc("MC_Seq")
+    descs = dedupe(r["scenarios"])
+    # usize::MAX and boundary / larger lengths beyond the model
+    for n in (1, 4, 8, 12):
+        for op in ("remove", "swap_remove"):
+            descs.append({"op": op, "n": n, "arg": 2147483647, "m": 0})
+    for n in (9, 10, 11):
+        descs += [{"op": "append", "n": n, "arg": 0, "m": 0}, {"op": "prepend", "n": n, "arg": 0, "m": 0}, {"op": "pop_back", "n": n + 1, "arg": 0, "m": 0}, {"op": "pop_front", "n": n + 1, "arg": 0, "m": 0}]
+        descs += [{"op": "split", "n": 12, "arg": n, "m": 0}, {"op": "concat", "n": n, "arg": 0, "m": 12 - n}, {"op": "remove", "n": 12, "arg": n, "m": 0}, {"op": "swap_remove", "n": 12, "arg": n, "m": 0}]
+    scns = [seq_scripts(d, "C09") for d in descs]
+    c.cov["exhaustive"] = True
+    c.cov["bounds"] = {"model": "N in 0..8, every K <= N, every (N, M) with N+M <= 8, every index 0..N+1", "extra": "usize::MAX indices, lengths 9..12"}
+    c.conform(binary, with_etys(scns, ["tk", "zst", "plain"]), "owned")
+    rows = views_from_model(c, "MC_Views", lambda d: d["api"] in ("split_ref", "split_mut"))
+    vs = []
+    for d in rows:
+        for e in (["unit", "u8", "u64", "b24"] if tier == "quick" else VIEW_ETYS):
+            vs.append(view_scn("C09", d["api"], e, d["n"], d["n"], d["k"]))
+    for (n, k) in split_pairs():
+        if n > 8:
+            for api in ("split_ref", "split_mut"):
+                for e in ("unit", "u8", "b24"):
+                    vs.append(view_scn("C09", api, e, n, n, k))
+    c.conform(binary, vs, "split-by-ref", sub="views")
+    c.assumptions.append("element sizes 0 (zst, unit), 1 (u8), 8 (tk, plain, u64) and 24 bytes (b24); out-of-bounds reads whose result is discarded are visible only to the thorough tier's sanitizer build")
+    return c.finish()
+
+
+FLAT_PAIRS = [(a, b) for a in range(0, 7) for b in range(0, 7)] + [(1, 1024), (1024, 1), (16, 64), (2, 8), (8, 2)]
+ARR_LENS = set(list(range(0, 13)) + [14, 15, 16, 18, 20, 24, 25, 30, 33, 36, 97, 1024])
+
+
+@check("C11")
+def c11(tier, seed):
+    c = Check("C11", tier, seed)
+    binary = vlib.build_harness()
+    rows = views_from_model(c, "MC_Views", lambda d: d["api"] in ("flatten_ref", "flatten_mut", "unflatten_ref", "unflatten_mut"))
+    seen = set((d["api"], d["n"], d["m"]) for d in rows)
+    for (a, b) in FLAT_PAIRS:
+        for api in ("flatten_ref", "flatten_mut", "unflatten_ref", "unflatten_mut"):
+            if api.startswith("unflatten") and a == 0:
+                continue
+            if (api, a, b) not in seen:
+                rows.append({"api": api, "n": a, "m": b})
+    vs = []
+    for d in rows:
+        if (d["n"], d["m"]) not in FLAT_PAIRS:
+            continue
+        big = d["n"] * d["m"] > 64
+        for e in (["unit", "u8", "u64"] if (tier == "quick" or big) else VIEW_ETYS):
+            vs.append(view_scn("C11", d["api"], e, d["n"], d["n"] * d["m"], 0, d["m"]))
+    c.conform(binary, vs, "by-ref", sub="views")
+    owned = []
+    for (a, b) in FLAT_PAIRS:
+        if a * b not in ARR_LENS or (a, b) == (16, 64) and False:
+            continue
+        if (a > 6 or b > 6) and (a, b) not in [(1, 1024), (1024, 1), (16, 64), (2, 8), (8, 2)]:
+            continue
+        st = [{"op": "mk", "kind": "nested", "n": b, "inner": a}, {"op": "flatten", "recv": [1]}]
+        if a >= 1:
+            st += [{"op": "unflatten", "recv": [2], "arg": a}, {"op": "flatten", "recv": [3]}]
+        owned.append({"case": "flatten", "prop": "C11", "ety": "tk", "steps": st, "d": {"op": "flatten/unflatten owned", "n": a, "m": b}})
+    c.cov["exhaustive"] = True
+    c.cov["bounds"] = {"pairs": "all (N, M) in 0..6 x 0..6 plus (1,1024), (1024,1), (16,64), (2,8), (8,2); owned, & and &mut forms"}
+    c.conform(binary, with_etys(owned, ["tk", "zst", "plain"]), "owned")
+    return c.finish()
